@@ -1,7 +1,7 @@
 import json, os, subprocess
 
 SPEC = {
-    "lean_modules": ["SemaModel.C02.Props", "SemaModel.Compose.Props"],
+    "lean_modules": ["SemaModel.C02.Props", "SemaModel.Compose.Props", "SemaModel.C02.Tie"],
     "lean_dirs": ["SemaModel/C02", "SemaModel/Compose"],
     "harness": "c02",
     "harness_args": {"quick": ["-shards", 48, "-batches", 14, "-searches", 18, "-searchx", 6],
@@ -18,6 +18,9 @@ SPEC = {
         "Sema.Compose.Compose_step", "Sema.Compose.Compose_inv_history", "Sema.Compose.Compose_insert_fresh",
         "Sema.Compose.Compose_rejected_noop", "Sema.Compose.Compose_filter_state", "Sema.Compose.Compose_filter_exact",
         "Sema.Compose.Compose_select_star", "Sema.Compose.Compose_write_read", "Sema.Compose.Compose_histOK_of_final",
+        # tie theorems (SemaModel/C02/Tie.lean, notes/T1ext.md section 7): model functions = definitions generated from the Go source
+        "Sema.C02.C02_tie_getOperation", "Sema.C02.C02_tie_getOperation_prevErr", "Sema.C02.C02_tie_getOperation_curErr",
+        "Sema.C02.C02_tie_getOperation_ok", "Sema.C02.C02_tie_toChange", "Sema.C02.C02_tie_toArrChange",
     ],
     "trusted_base": [
         "SemaModel/Compose/Model.lean (the combined model: C01's point store + C02's indexes + C06's answer pipeline; new in it: the change stream of a batch, the index verdict, one write step for both, searchPoints) is tied to the code by a second correspondence run: the compiled combined model (`semadriver C02 compose`) answers every op line of the same histories — allocating the node ids itself, compared with the ones the shard allocated — plus `searchx` lines (select / sort / offset / limit through the whole SearchPoints pipeline); a stored top-level value is opaque text in the point store and is read by two parameters (Conv.idx, Conv.sel) — theorems hold for every such pair, the driver's pair is the value syntax of the op lines",
